@@ -79,3 +79,14 @@ class Numbers:
     flag: bool = True
     attrs: Dict[str, str] = field(default_factory=dict, metadata={"type": "Attributes"})
     anything: List[object] = field(default_factory=list, metadata={"type": "Wildcard"})
+
+
+@dataclass
+class Defaults:  # optional fields whose default is not None: an explicit None is a value of its own
+    lang: Optional[str] = "en"
+    indent: Optional[int] = 2
+    ratio: Optional[float] = 1.5
+    tags: Optional[List[str]] = field(default_factory=list)
+    color: Optional[Color] = Color.RED
+    when: Optional[XmlDate] = XmlDate(2020, 1, 1)
+    inner: Optional[Outer.Inner] = field(default_factory=Outer.Inner)
